@@ -110,6 +110,14 @@ func (s *schedSource) next(max int) int {
 		return 1
 	case s.chunk == "rand":
 		return 1 + s.r.Intn(1+s.r.Intn(700))
+	case strings.HasPrefix(s.chunk, "at"):
+		// two deliveries: everything up to byte p, then the rest
+		var p int
+		fmt.Sscanf(s.chunk[2:], "%d", &p)
+		if s.pos < p {
+			return p - s.pos
+		}
+		return max
 	case strings.HasPrefix(s.chunk, "k"):
 		var k int
 		fmt.Sscanf(s.chunk[1:], "%d", &k)
